@@ -351,3 +351,33 @@ func H_C12_mismatch() {
 	vxrt.Assert(vxDumpDir(dir) == before, "C12:nothing-written-by-replays")
 	vxrt.Assert(vxCfgEqual(*c1, snap), "C12:config-unchanged-by-call")
 }
+
+// H_C12_symlink: one Config whose directory lies behind a symbolic link and does not exist before
+// the first call: the calls made through it keep going to one file (the second call of the test
+// is slot 2 of the file the first call created), also for the standalone entry point.
+func H_C12_symlink() {
+	vxrt.CI(false)
+	vxrt.EnvFixed("NO_COLOR", "1")
+	vxrt.EnvFixed("UPDATE_SNAPS", "")
+	base := vxrt.Dir()
+	realDir, link := base+"/real", base+"/link"
+	vxOs_MkdirAll(realDir)
+	vxrt.Symlink(realDir, link)
+	dir := link + "/new/__snapshots__"
+	t := vxNewT("TestT")
+	if vxrt.Bool("standalone") {
+		c := WithConfig(Dir(dir))
+		c.MatchStandaloneSnapshot(t, "one")
+		c.MatchStandaloneSnapshot(t, "two")
+		t.end()
+		vxrt.Assert(len(t.errors) == 0 && len(t.logs) == 2, "C12:behaviour-depends-only-on-options")
+		vxrt.Assert(vxReadFile(realDir+"/new/__snapshots__/TestT_1.snap") == "one" && vxReadFile(realDir+"/new/__snapshots__/TestT_2.snap") == "two", "C12:location-depends-only-on-options")
+		return
+	}
+	c := WithConfig(Dir(dir), Filename("f"))
+	c.MatchSnapshot(t, "one")
+	c.MatchSnapshot(t, "two")
+	t.end()
+	vxrt.Assert(len(t.errors) == 0 && len(t.logs) == 2, "C12:behaviour-depends-only-on-options")
+	vxrt.Assert(vxReadFile(realDir+"/new/__snapshots__/f.snap") == vxFrame("TestT - 1", "one")+vxFrame("TestT - 2", "two"), "C12:location-depends-only-on-options")
+}
